@@ -39,7 +39,7 @@ AMPLE = 0.49
 # endpoint to its class representative the transmapping tuple has fewer than two entries (a mapping of the final endpoint lands in
 # the slot of the initial one).  While the flag is True the generator does not draw (interstitial calculator, supercell) pairs in
 # exactly that region (su.nomap_region, computed from the crystal's point operations that survive in the supercell).
-EXCLUDE_INT_NOMAP = False
+EXCLUDE_INT_NOMAP = True
 
 
 @st.composite
@@ -437,12 +437,15 @@ def catalogue_cases(quick):
 
 
 def run(ctx):
+    ctx.known(check)
     ctx.corpus(check)
     base = catalogue_cases(ctx.quick)
     if EXCLUDE_INT_NOMAP and ctx.shard == 0:
         ctx.exclude("interstitial-nomap (catalogue supercells dropped)", excluded[0])
     ctx.cases([c for i, c in enumerate(base) if ctx.mine(i)], check, label="catalogue")
     ctx.given(cases(), check, quick=80, thorough=3000)
+    if EXCLUDE_INT_NOMAP:
+        ctx.exclude("interstitial-nomap (supercells dropped from generated pools)", su.COUNTERS["nomap_dropped"])
 
 
 def replay(case):
